@@ -3,7 +3,7 @@
     followed by [Print Assumptions].  The image bitstream and the ALPH payload are
     arbitrary byte strings whose header declares the picture size (what Encode's
     codecs hand to writeRIFF); the pixel codecs are parameters. *)
-From Coq Require Import List ZArith.
+From Coq Require Import List ZArith Bool.
 From Webp Require Import Base.Res Base.Bytes Riff.ParserModel Riff.ParserSpec Riff.WriterModel
      Riff.FeaturesModel Riff.MetadataProofs Riff.ParserProofs Riff.WriterTheorems.
 Import ListNotations.
@@ -96,6 +96,12 @@ Theorem C15_streaming_eq_buffered : forall bs,
   len bs < 4294967296 - 21 -> Ok (write_lossless_stream bs) = write_riff_simple FourCCVP8L bs.
 Proof. exact streaming_eq_buffered. Qed.
 Print Assumptions C15_streaming_eq_buffered.
+
+Theorem C15_encode_lossless_container_eq : forall bs w h icc exif xmp,
+  len bs < 4294967296 - 21 ->
+  encode_lossless_container bs w h icc exif xmp = write_riff FourCCVP8L bs [] w h icc exif xmp.
+Proof. exact encode_lossless_container_eq. Qed.
+Print Assumptions C15_encode_lossless_container_eq.
 
 (** Animation encoder, repaired Close: with any metadata set the muxer's file
     (which carries it) is written; otherwise only a non-empty strictly smaller
